@@ -74,6 +74,11 @@ pub struct Cx<'g> {
     pub fuels: Vec<String>,
     fuel_next: usize,
     /// length of the array type a `let` annotation asks for (const-generic argument of the initialiser call)
+    /// value-position `if` / `match` / blocks that assign outer variables return them together with their value
+    pub value_carry: Vec<Vec<String>>,
+    /// `let oct = OctetsMut::with_slice(&mut buffer)`: the buffer a cursor variable writes into
+    pub pending_backing: Option<Place>,
+    pub backings: Vec<(String, Place)>,
     /// locals that hold values computed from ignored fields / floats (no Lean binding exists for them)
     pub ignored_locals: Vec<String>,
     /// translating the initialiser of a `const` item (compile-time evaluation: arithmetic is exact)
@@ -117,6 +122,9 @@ impl<'g> Cx<'g> {
             pending_ro: Vec::new(),
             fuels: Vec::new(),
             fuel_next: 0,
+            value_carry: Vec::new(),
+            pending_backing: None,
+            backings: Vec::new(),
             ignored_locals: Vec::new(),
             const_ctx: false,
             array_len_hint: None,
@@ -543,6 +551,7 @@ impl<'g> Cx<'g> {
         let pr = std::mem::take(&mut self.pending_ro);
         self.ro.push(pr);
         let saved_ignored = self.ignored_locals.len();
+        let saved_backings = self.backings.len();
         let saved_globs = self.glob_enums.len();
         let r = self.items_inner(items, tail, span);
         self.glob_enums.truncate(saved_globs);
@@ -550,6 +559,7 @@ impl<'g> Cx<'g> {
         self.ro.pop();
         self.scopes.pop();
         self.ignored_locals.truncate(saved_ignored);
+        self.backings.truncate(saved_backings);
         r
     }
 
@@ -622,6 +632,7 @@ impl<'g> Cx<'g> {
                                     return Ok((Doc::seq(stmts, d), Ty::Unknown, true));
                                 }
                                 let (v, t) = self.expr(e, exp.as_ref(), &mut stmts)?;
+                                let v = self.carry_val(&v);
                                 return Ok((Doc::seq(stmts, Doc::atom(format!("pure {}", v))), t, false));
                             }
                             Tail::Unit(_) => unreachable!(),
@@ -645,9 +656,38 @@ impl<'g> Cx<'g> {
                 let p = self.payload("()");
                 Ok((Doc::seq(stmts, Doc::atom(format!("pure {}", p))), Ty::Unit, false))
             }
-            Tail::Value(_) => Ok((Doc::seq(stmts, Doc::atom("pure ()")), Ty::Unit, false)),
+            Tail::Value(_) => {
+                let v = self.carry_val("()");
+                Ok((Doc::seq(stmts, Doc::atom(format!("pure {}", v))), Ty::Unit, false))
+            }
             Tail::Unit(m) => Ok((Doc::seq(stmts, Doc::atom(format!("pure {}", Self::tuple_val(m)))), Ty::Unit, false)),
         }
+    }
+
+    /// value of a value-position construct together with the outer variables it assigns
+    fn carry_val(&self, v: &str) -> String {
+        match self.value_carry.last() {
+            Some(m) if !m.is_empty() => {
+                let mut comps: Vec<String> = m.iter().map(|x| lean_ident(x)).collect();
+                comps.push(v.to_string());
+                format!("({})", comps.join(", "))
+            }
+            _ => v.to_string(),
+        }
+    }
+
+    /// bind the result of a value-position construct that assigns the outer variables `m`
+    pub fn bind_carried(&mut self, m: &[String], d: Doc, stmts: &mut Vec<Stmt>) -> String {
+        let t = self.fresh();
+        if m.is_empty() {
+            stmts.push(Stmt::Bind(t.clone(), d));
+        } else {
+            let mut comps: Vec<String> = m.iter().map(|x| lean_ident(x)).collect();
+            comps.push(t.clone());
+            self.note_dirty(m);
+            stmts.push(Stmt::Bind(format!("({})", comps.join(", ")), d));
+        }
+        t
     }
 
     /// `return …` / diverging macro in value position
@@ -989,6 +1029,33 @@ impl<'g> Cx<'g> {
             }
         }
         // `let x = &mut place;` : `x` is an alias of the place
+        // `let x = map.get_mut(&k).unwrap();` : `x` is an alias of the entry; panics when the key is absent
+        if let syn::Expr::MethodCall(uw) = &**init {
+            if (uw.method == "unwrap" && uw.args.is_empty()) || (uw.method == "expect" && uw.args.len() == 1) {
+                if let syn::Expr::MethodCall(gm) = &*uw.receiver {
+                    if gm.method == "get_mut" && gm.args.len() == 1 {
+                        let name = match pat {
+                            syn::Pat::Ident(pi) if pi.subpat.is_none() && pi.by_ref.is_none() => pi.ident.to_string(),
+                            other => return self.bail(other.span(), "`let <pattern> = map.get_mut(..).unwrap()` needs a plain variable"),
+                        };
+                        self.check_local_name(&name, pat.span())?;
+                        let base = self.place(&gm.receiver, stmts)?;
+                        let (kt, vt) = match base.ty() {
+                            Ty::Map(k, v, _) => (*k, *v),
+                            _ => return self.bail(gm.receiver.span(), "`get_mut` on a value that is not a map"),
+                        };
+                        let (k, _) = self.expr(&gm.args[0], Some(&kt), stmts)?;
+                        let cur = self.read(&base, stmts)?;
+                        let site = self.site(&**init);
+                        // the `unwrap()`
+                        stmts.push(Stmt::Bind("_".into(), Doc::atom(format!("RustSem.Map.index {} {} {}", cur, k, site))));
+                        self.declare(&name, vt.clone());
+                        self.aliases.last_mut().unwrap().push((name, Place::MapEntry(Box::new(base), k, vt, site)));
+                        return Ok(());
+                    }
+                }
+            }
+        }
         // `let x = &mut <temporary>;` : the variable owns the temporary (`let x = &mut Cursor::new(src);`)
         let mut init: &syn::Expr = init;
         if let syn::Expr::Reference(r) = init {
@@ -1023,6 +1090,9 @@ impl<'g> Cx<'g> {
                 self.check_local_name(&name, pi.span())?;
                 stmts.push(Stmt::Let(lean_ident(&name), v));
                 self.declare(&name, ty);
+                if let Some(b) = self.pending_backing.take() {
+                    self.backings.push((name, b));
+                }
                 Ok(())
             }
             syn::Pat::Wild(_) => {
@@ -1997,6 +2067,11 @@ impl<'g> Cx<'g> {
                     self.self_dirty = true;
                 }
                 stmts.push(Stmt::Let(lean_ident(n), v));
+                // a cursor over a local buffer: the buffer holds what the cursor has written
+                if let Some((_, b)) = self.backings.iter().rev().find(|(x, _)| x == n).cloned() {
+                    let bv = format!("{}.buf", lean_ident(n));
+                    self.write(&b, bv, stmts)?;
+                }
                 Ok(())
             }
             Place::Field(b, f, _) => {
@@ -2146,6 +2221,29 @@ impl<'g> Cx<'g> {
                 let lt = place.ty();
                 let (x, _) = self.expr(args[0], Some(&lt), stmts)?;
                 format!("RustSem.extend_from_slice {} {}", cur, x)
+            }
+            ("append", 1) => {
+                // `v.append(&mut other)`: all elements of `other` move to the end of `v`; `other` is left empty
+                let mut inner: &syn::Expr = args[0];
+                loop {
+                    match inner {
+                        syn::Expr::Reference(r) => inner = &r.expr,
+                        syn::Expr::Paren(p) => inner = &p.expr,
+                        _ => break,
+                    }
+                }
+                let lt = place.ty();
+                if self.is_place(inner) && !matches!(inner, syn::Expr::MethodCall(_) | syn::Expr::Call(_)) {
+                    let other = self.place(inner, stmts)?;
+                    let x = self.read(&other, stmts)?;
+                    self.write(&other, "[]".to_string(), stmts)?;
+                    let cur2 = self.read(&place, stmts)?;
+                    return self.write(&place, format!("(RustSem.extend_from_slice {} {})", cur2, x), stmts);
+                }
+                // a temporary (the result of a call)
+                let (x, _) = self.expr(inner, Some(&lt), stmts)?;
+                let cur2 = self.read(&place, stmts)?;
+                return self.write(&place, format!("(RustSem.extend_from_slice {} {})", cur2, x), stmts);
             }
             ("insert", 2) => {
                 let (i, _) = self.expr(args[0], Some(&Ty::usize()), stmts)?;
